@@ -219,6 +219,8 @@ func (i *input) lex() {
 					Text:      content.String(),
 				})
 			}
+			// The string has been consumed; the next rune may start a comment.
+			continue
 		default:
 			startLine := i.pos.line
 			var comment bytes.Buffer
@@ -250,6 +252,8 @@ func (i *input) lex() {
 					EndLine:   i.pos.line,
 					Text:      comment.String(),
 				})
+				// The comment has been consumed; the next rune may start another one.
+				continue
 			} else if i.singleLineComment() { // Single line comment
 				for {
 					if i.eof() {
